@@ -24,19 +24,36 @@ def record_pts(pid, path, pcfg, flags, tid0, rng, desc, traces, meta, strings):
         groups = expand.pt_groups(pcfg, pt, path, fileprobs, synth_caps=flags.get('skip_case', False))
         lines, n = expand.expand_real(pcfg, pt)
         is_m = groups[0]['k'] == 'markov'
+        m_judged = False
         if is_m:
-            # I-layer sees the level as the strings the generator yields; the oracle for the level's
-            # string set is Omen!LevelSet (C10) - here the level's string list is data
-            groups[0]['v'] = [expand.cps(s) for s in lines]
-            groups[0]['fr'] = []
+            # the I-layer sees the level as the strings the generator yields.  For the verdict the group's levels
+            # are drained one by one from the real generator (judged exact by C10): a Markov pre-terminal must
+            # expand to the strings of *every* level that shares the group's (non-zero) probability.  Groups of
+            # probability 0.0 carry no mass: either behaviour is accepted (DESIGN 5.0).
+            from . import omen as _omen
+            t0, i0 = pt[0]
+            grp = pcfg.grammar[t0][i0]
+            want = []
+            for lv in grp['values']:
+                ss, done, err = _omen.drain(pcfg.omen_grammar, int(lv), _omen.new_optimizer(), cap=5000)
+                want += ss
+            gen_groups = [dict(groups[0], v=[expand.cps(x) for x in lines], fr=[])]
+            if grp['prob'] > 0:
+                m_judged = True
+                groups = [dict(groups[0], v=[expand.cps(x) for x in want])]
+                strings.extend(want)
+            else:
+                groups = gen_groups
         strings.extend(lines)
         for g, (t, i) in zip(groups, pt):
             if g['k'] == 'plain':
                 strings.extend(pcfg.grammar[t][i]['values'])
-        if pid == 'C04' and not is_m:
+        if pid == 'C04' and (not is_m or m_judged):
             tid += 1
             traces.append({'tid': tid, 'kind': 'pt', 'groups': groups, 'lines': [expand.cps(s) for s in lines], 'count': n})
-            meta[tid] = {'ruleset': desc, 'flags': flags, 'pt': pt}
+            meta[tid] = {'ruleset': desc, 'flags': flags, 'pt': pt, 'markov_levels': list(pcfg.grammar[pt[0][0]][pt[0][1]]['values']) if is_m else None}
+        if is_m:
+            groups = gen_groups
         # I-layer conformance with a limit
         total = len(lines)
         for limit in sorted({1, max(1, total // 2), total, total + 1, rng.randint(1, total + 1)}):
